@@ -49,14 +49,20 @@ CReset(e) ==
 (*   zero-although-match-exists   the zero time, but something matches within five years *)
 (*   result-does-not-match:<f>    the result violates field f (month, dom-dow, hour, minute, second: the coarsest) *)
 (*   skipped-earlier-match        the result matches, but so does an earlier instant after t *)
+(* The zero time is acceptable only when nothing matches within five years of t (wall clock of the zone);   *)
+(* any other answer, however far, must be the earliest match after t.                                      *)
 Judge(S, rule, ed, zt, e) ==
-  LET n == NextUpTo(S, rule, ed, zt, e.t, IF e.zero THEN MustFindBy(ed, e.t) ELSE e.r) IN
-  IF e.zero THEN IF n = None THEN "" ELSE "next: zero-although-match-exists; first match " \o ToString(n)
+  LET wl == FiveYearsOn(ed, e.t + OffsetAt(zt, e.t))
+      far == MinI(wl + Day - MinI(0, zt[Len(zt)].off), zt[Len(zt)].to - 1)   \* every instant whose reading can be <= wl
+      n == NextUpTo(S, rule, ed, zt, e.t, IF e.zero THEN far ELSE e.r)
+  IN
+  IF e.zero THEN IF n = None \/ n + OffsetAt(zt, n) > wl THEN ""
+                 ELSE "next: zero-although-match-exists; first match " \o ToString(n)
   ELSE IF n = e.r THEN ""
   ELSE LET v == Violated(S, rule, ed, e.r + OffsetAt(zt, e.r)) IN
        IF v = "" THEN IF n # None THEN "next: skipped-earlier-match " \o ToString(n) ELSE "SPEC-INCONSISTENT"
        ELSE "next: result-does-not-match:" \o v \o "; first match " \o
-            ToString(IF n # None THEN n ELSE NextUpTo(S, rule, ed, zt, e.t, MinI(MustFindBy(ed, e.t), zt[Len(zt)].to - 1)))
+            ToString(IF n # None THEN n ELSE NextUpTo(S, rule, ed, zt, e.t, far))
 
 CNext(c, e, zt) ==
   IF c.kind = "none" THEN c
